@@ -45,8 +45,9 @@ XRI_T = XRI_Q + [("::ffff:7.7.7.7",), ("fe80::1%lo",), ("256.1.1.1",), ("9.9.9.9
                  ("010.1.1.1",), ("9.9.9.9 x",), ("0",)]
 XFF_Q = [None, ("4.4.4.4",), ("4.4.4.4, 10.0.0.1",), ("10.0.0.1",), ("3.3.3.3, 4.4.4.4",),
          ("4.4.4.4, garbage",), ("garbage, 4.4.4.4",), ("garbage",), ("",), ("4.4.4.4,",),
-         ("2001:db8::4",), ("3.3.3.3", "4.4.4.4, 10.0.0.1"), ("4.4.4.4 ,\t10.0.0.1",)]
-XFF_T = XFF_Q + [("4.4.4.4, 10.0.0.1, 10.0.0.1",), ("10.0.0.1, 4.4.4.4",),
+         ("2001:db8::4",), ("3.3.3.3", "4.4.4.4, 10.0.0.1"), ("4.4.4.4 ,\t10.0.0.1",),
+         ("4.4.4.4, 10.0.0.1, 10.0.0.1",), ("4.4.4.4, 10.0.0.1", "10.0.0.1")]      # two trusted hops behind the client
+XFF_T = XFF_Q + [("10.0.0.1, 4.4.4.4",),
                  ("10.0.0.1,10.0.0.1",), (",4.4.4.4",), ("4.4.4.4 10.0.0.1",),
                  ("4.4.4.4;10.0.0.1",), ("127.1",), ("10.0.0.10",), ("4.4.4.4, 010.0.0.1",),
                  ("localhost",), ("4.4.4.4,,10.0.0.1",), ("3.3.3.3, 2001:db8::4, 10.0.0.1",),
